@@ -54,3 +54,37 @@ Proof. reflexivity. Qed.
 (* uniting a filter with a timeline is a TypeError, in both orders *)
 Lemma or_filter_timeline : or_kind KFilter KTimeline = inl TypeError /\ or_kind KTimeline KFilter = inl TypeError.
 Proof. split; reflexivity. Qed.
+
+(* ---- buffer(): validation of the amounts (C17) ---- *)
+From Coq Require Import Lia.
+
+Lemma buffer_rejects_negative e b a : b < 0 \/ a < 0 -> buffer_ e b a = inl ValueError.
+Proof.
+  intros H. unfold buffer_. destruct (b <? 0) eqn:Eb; [reflexivity|].
+  destruct (a <? 0) eqn:Ea; [reflexivity|]. lia.
+Qed.
+
+Lemma buffer_accepts_nonnegative e b a : 0 <= b -> 0 <= a -> buffer_ e b a = inr (Buf e b a).
+Proof.
+  intros Hb Ha. unfold buffer_. destruct (b <? 0) eqn:Eb; [lia|]. destruct (a <? 0) eqn:Ea; [lia|]. reflexivity.
+Qed.
+
+(* a chain of buffer() calls is rejected exactly when some amount, at any level, is negative —
+   in particular a negative amount cannot be compensated by the buffer underneath *)
+Lemma buffer_chain_rejects amts : forall e,
+  (exists p, In p amts /\ (fst p < 0 \/ snd p < 0)) <-> buffer_chain e amts = inl ValueError.
+Proof.
+  induction amts as [|[b a] r IH]; intro e; cbn [buffer_chain].
+  - split; [intros (p & [] & _)|discriminate].
+  - unfold buffer_. destruct ((b <? 0) || (a <? 0)) eqn:E.
+    + split; [reflexivity|]. intros _. exists (b, a). split; [left; reflexivity|]. cbn [fst snd]. lia.
+    + rewrite <- IH. split.
+      * intros (p & [<-|Hp] & Hn); [cbn [fst snd] in Hn; lia|]. exists p. split; assumption.
+      * intros (p & Hp & Hn). exists p. split; [right; exact Hp|exact Hn].
+Qed.
+
+Lemma buffer_chain_never_typeerror amts : forall e, buffer_chain e amts <> inl TypeError.
+Proof.
+  induction amts as [|[b a] r IH]; intro e; cbn [buffer_chain]; [discriminate|].
+  unfold buffer_. destruct ((b <? 0) || (a <? 0)); [discriminate|apply IH].
+Qed.
